@@ -771,8 +771,30 @@ namespace bloch::compiler {
             return parseEcho();
         if (match(TokenType::Reset))
             return parseReset();
-        if (match(TokenType::Measure))
+        if (match(TokenType::Measure)) {
+            // 'measure q;' is the measure statement; 'measure q ? a : b' is the conditional
+            // statement whose condition is the measurement expression
+            const Token& measureTok = previous();
+            size_t afterKeyword = m_current;
+            std::unique_ptr<Expression> target = parseExpression();
+            if (check(TokenType::Question)) {
+                std::unique_ptr<MeasureExpression> cond =
+                    std::make_unique<MeasureExpression>(MeasureExpression{std::move(target)});
+                cond->line = measureTok.line;
+                cond->column = measureTok.column;
+                (void)advance();
+                std::unique_ptr<Statement> thenBranch = parseStatement();
+                (void)expect(TokenType::Colon, "Expected ':' after true branch");
+                std::unique_ptr<Statement> elseBranch = parseStatement();
+                std::unique_ptr<TernaryStatement> stmt = std::make_unique<TernaryStatement>();
+                stmt->condition = std::move(cond);
+                stmt->thenBranch = std::move(thenBranch);
+                stmt->elseBranch = std::move(elseBranch);
+                return stmt;
+            }
+            m_current = afterKeyword;
             return parseMeasure();
+        }
         if (match(TokenType::Destroy))
             return parseDestroy();
 
